@@ -41,8 +41,9 @@ EXTRA = {'Parameter': [], 'Boolean': [], 'Number': ['bounds', 'inclusive_bounds'
          'Integer': ['bounds', 'inclusive_bounds', 'softbounds', 'step'], 'String': ['regex'], 'Tuple': ['length'],
          'List': ['bounds'], 'Magnitude': ['bounds', 'inclusive_bounds', 'softbounds', 'step'], 'NumericTuple': ['length'],
          'Range': ['length', 'bounds', 'inclusive_bounds', 'softbounds', 'step'], 'Color': ['allow_named'],
-         'ClassSelector': ['class_', 'is_instance'], 'Dict': ['is_instance']}
-TYPE_MOVES = {'Parameter': ['Number', 'String', 'Boolean', 'Tuple', 'List', 'Integer', 'Color', 'ClassSelector', 'Range', 'Dict'],
+         'ClassSelector': ['class_', 'is_instance'], 'Dict': ['is_instance'], 'Selector': ['objects', 'check_on_set']}
+TYPE_MOVES = {'Parameter': ['Number', 'String', 'Boolean', 'Tuple', 'List', 'Integer', 'Color', 'ClassSelector', 'Range', 'Dict', 'Selector'],
+              'Selector': ['Parameter', 'Selector'],
               'Number': ['Integer', 'Parameter', 'String', 'Magnitude'],
               'Integer': ['Number', 'Parameter'], 'String': ['Parameter', 'Number', 'Color'], 'Boolean': ['Parameter', 'Integer'],
               'Tuple': ['Parameter', 'List', 'NumericTuple'], 'List': ['Parameter', 'Tuple'], 'Magnitude': ['Number', 'Parameter'],
@@ -66,6 +67,9 @@ VALUES = {
     ('Dict', 'default'): [{'a': 1}, {}, None],
     ('Magnitude', 'bounds'): [(0, 10), (0.0, 1.0), (0.3, None), None],
     ('Range', 'bounds'): [(0, 10), (2, None), (None, 4), None, (0, 5)],
+    ('Selector', 'default'): [1, 2, 'a', None, 5],
+    'objects': [[1, 2, 3], [2, 3], ['a', 'b', 1], [], [5]],
+    'check_on_set': [True, False],
     'class_': [int, str, (int, str), (int, float), tuple],
     'is_instance': [True, False],
     'allow_named': [True, False],
@@ -106,7 +110,7 @@ def gen_explicit(rng, tname):
 
 
 def type_default(T, slot):
-    name = '_label' if slot == 'label' else slot
+    name = {'label': '_label', 'objects': '_objects'}.get(slot, slot)
     return T._slot_defaults[name]
 
 
@@ -119,7 +123,13 @@ def own_initial(param, tname, exp):
         own['constant'] = True
     # allow_None is computed from the class's own declaration
     d = exp['default'] if 'default' in exp else type_default(T, 'default')
-    if d is None:
+    if tname == 'Selector':
+        # documented for the Selector family: only an explicit allow_None counts (a None default does not switch it
+        # on); without an explicit default the first of the declared objects is the default
+        own['allow_None'] = exp.get('allow_None', type_default(T, 'allow_None'))
+        if 'default' not in exp and exp.get('objects'):
+            own['default'] = exp['objects'][0]
+    elif d is None:
         own['allow_None'] = True
     elif 'allow_None' in exp:
         own['allow_None'] = exp['allow_None']
@@ -167,10 +177,20 @@ def resolve(param, tname, exp, ancestors):
             else:
                 merged[s] = dv
     for s, fn in deferred:
-        if tname in ('Tuple', 'NumericTuple') and s == 'length':
+        if tname == 'Selector' and s == 'objects':
+            merged[s] = []
+        elif tname == 'Selector' and s == 'check_on_set':
+            merged[s] = UNDEF       # (filled in below, it depends on the merged objects)
+        elif tname in ('Tuple', 'NumericTuple') and s == 'length':
             merged[s] = len(merged['default']) if isinstance(merged.get('default'), tuple) else UNDEF
         else:
             merged[s] = UNDEF
+    if tname == 'Selector' and merged.get('check_on_set') is UNDEF:
+        merged['check_on_set'] = len(merged['objects']) > 0
+    if tname == 'Selector' and merged['check_on_set'] is False and merged['default'] is not None and \
+            merged['default'] not in merged['objects']:
+        # documented for unchecked selectors: a value that is not among the objects is added to them
+        merged['objects'] = list(merged['objects']) + [merged['default']]
     type_changed = any(not issubclass(getattr(param, a['type']), T) for a in ancestors)
     return merged, type_changed
 
@@ -185,7 +205,7 @@ def spec_type(tname, merged):
 
 def cfg_of(tname, merged):
     cfg = dict(allow_None=merged.get('allow_None'))
-    for k in ('bounds', 'inclusive_bounds', 'regex', 'length', 'step', 'class_', 'is_instance', 'allow_named'):
+    for k in ('bounds', 'inclusive_bounds', 'regex', 'length', 'step', 'class_', 'is_instance', 'allow_named', 'objects', 'check_on_set'):
         if k in merged and merged[k] is not UNDEF:
             cfg[k] = merged[k]
     if tname == 'Dict':
@@ -316,6 +336,10 @@ def run_case(idx, rng, P, rep):
             if s == 'label' and exp_v is None:
                 continue      # auto-generated from the attribute name
             same = (gv is exp_v) or (type(gv) is type(exp_v) and gv == exp_v)
+            if s == 'objects':
+                # an unchecked selector adds the value it validates (its default, also a re-checked None) to its objects
+                same = list(gv) == list(exp_v) or (merged.get('check_on_set') is False and list(gv) == list(exp_v) + [merged['default']])
+                merged['objects'] = list(gv)        # descendants inherit what is really there
             if not same:
                 src = 'explicit' if s in exp else ('inherited' if any(s in a['slots'] for a in ancestors) else 'type default')
                 viol(f'slot/{s}/{src}', f'{cls.__name__} ({tname}, explicit {sorted(exp)}) slot {s}: got {gv!r}, resolver says {exp_v!r} '
@@ -328,6 +352,8 @@ def run_case(idx, rng, P, rep):
                     if s in e['held']['slots'] and e['held']['slots'][s] is not UNDEF:
                         gv = getattr(eo, s)
                         ev = e['held']['slots'][s]
+                        if s == 'objects':
+                            gv, ev = list(gv), list(ev)
                         if not ((gv is ev) or (type(gv) is type(ev) and gv == ev)):
                             viol(f'crosstalk/{s}', f'{e["cls"].__name__}.param.p.{s} changed to {gv!r} after creating {cls.__name__}')
     rep.case((shape, tuple(outcome_sig)), nontrivial=nontrivial)
